@@ -75,19 +75,21 @@ fn snapshot(unit: usize) -> J {
 
 fn replay<const P: usize>(ops: &[J], nlabels: usize) -> Vec<J> {
     let unit = std::mem::size_of::<Node<P>>();
-    let mut handles: Vec<Option<Root<Node<P>>>> = Vec::new();
+    let mut handles: HashMap<usize, Vec<Root<Node<P>>>> = HashMap::new();
     let mut ptrs: HashMap<usize, Gc<Node<P>>> = HashMap::new();
     let mut next_serial = 1usize;
     let mut steps = Vec::new();
     for op in ops {
         let name = op[0].as_str().unwrap_or("");
+        let arg = |i: usize| op[i].as_u64().unwrap_or(0) as usize;
         match name {
             "new" => {
-                // ["new", kind, collect_before?]   collect_before: 0/1 (schedule) or absent (as built)
-                let kind = op[1].as_u64().unwrap_or(0) as usize;
-                match op.get(2).and_then(|c| c.as_u64()) {
-                    Some(1) => verif::set_gc_mode(verif::GC_ALWAYS),
-                    Some(0) => verif::set_gc_mode(verif::GC_NEVER),
+                // ["new", kind, collect_before]  collect_before: 1 / 0 = forced by the schedule,
+                // 2 = leave the decision to the build's own policy (as built)
+                let kind = arg(1);
+                match arg(2) {
+                    1 => verif::set_gc_mode(verif::GC_ALWAYS),
+                    0 => verif::set_gc_mode(verif::GC_NEVER),
                     _ => verif::set_gc_mode(verif::GC_DEFAULT),
                 }
                 let serial = next_serial;
@@ -99,35 +101,25 @@ fn replay<const P: usize>(ops: &[J], nlabels: usize) -> Vec<J> {
                     pad: [0u8; P],
                 });
                 ptrs.insert(serial, root.as_gc());
-                handles.push(Some(root));
+                handles.entry(serial).or_default().push(root);
             }
             "link" => {
-                let (o, l, p) = (
-                    op[1].as_u64().unwrap_or(0) as usize,
-                    op[2].as_u64().unwrap_or(0) as usize,
-                    op[3].as_u64().unwrap_or(0) as usize,
-                );
-                let target = ptrs[&p];
-                ptrs[&o].children.borrow_mut()[l] = Some(target);
+                let target = ptrs[&arg(3)];
+                ptrs[&arg(1)].children.borrow_mut()[arg(2) - 1] = Some(target);
             }
             "unlink" => {
-                let (o, l) = (op[1].as_u64().unwrap_or(0) as usize, op[2].as_u64().unwrap_or(0) as usize);
-                ptrs[&o].children.borrow_mut()[l] = None;
+                ptrs[&arg(1)].children.borrow_mut()[arg(2) - 1] = None;
             }
             "clone" => {
-                // ["clone", handle index (1-based)]
-                let h = op[1].as_u64().unwrap_or(1) as usize - 1;
-                let r = handles[h].as_ref().map(|r| r.clone());
-                handles.push(r);
+                let r = handles[&arg(1)].last().expect("handle").clone();
+                handles.get_mut(&arg(1)).unwrap().push(r);
             }
             "asroot" => {
-                // ["asroot", serial]: Gc::as_root on a reachable object
-                let o = op[1].as_u64().unwrap_or(0) as usize;
-                handles.push(Some(ptrs[&o].as_root()));
+                let r = ptrs[&arg(1)].as_root();
+                handles.entry(arg(1)).or_default().push(r);
             }
             "drop" => {
-                let h = op[1].as_u64().unwrap_or(1) as usize - 1;
-                handles[h] = None;
+                handles.get_mut(&arg(1)).and_then(|v| v.pop());
             }
             "collect" => {
                 memory::verif_collect_now();
@@ -136,11 +128,14 @@ fn replay<const P: usize>(ops: &[J], nlabels: usize) -> Vec<J> {
         }
         steps.push(snapshot(unit));
     }
-    // Read every object still held by a handle: a reclaimed one would be a use after free.
+    // Touch every object still held by a handle (a reclaimed one would be a use after free).
     let mut live = Vec::new();
-    for h in handles.iter().flatten() {
-        live.push(h.serial);
+    for (_, hs) in handles.iter() {
+        for h in hs {
+            live.push(h.serial);
+        }
     }
+    live.sort();
     steps.push(json!({"final_handles": live, "unit": unit}));
     drop(handles);
     steps
